@@ -496,6 +496,123 @@ def r4b_handover(rep, src):
         raise AnalysisError('%s: fewer than three calling conventions interpreted' % f.site)
 
 
+def r5_accept_and_reread(rep, src, tier):
+    """the statement on whole values, end to end: a paragraph is built by the interpreted constructor (sa.heap, CPython's regex engine on
+    decided lines), three fields are assigned through the interpreted __setitem__ -- the middle one with a value of a family built from
+    line classes: a first line (empty, a word, `a: b`, blanks in front) followed by none / one / two continuation lines (indented by a
+    blank or a tab, a lone full stop, whitespace only, an indented comment, an indented `Key: v`; NOT indented: a word, `Injected: yes`,
+    a comment, an armor line; empty), with and without a newline at the end.  A value that ends in a newline, has an empty line or a
+    continuation line that does not start with whitespace must raise ValueError and leave the paragraph as it was; for an accepted
+    value the interpreted dump() is read back by the interpreted iter_paragraphs -- with whitespace-only lines not ending a paragraph,
+    and with the default setting when no continuation line is blank -- and must give one paragraph with the same field names."""
+    from .. import heap as H
+    mod = src.mod('deb822')
+    need = {n_: mod.method('Deb822', n_) for n_ in ('__init__', '__setitem__', 'dump', 'iter_paragraphs', 'validate_input')}
+    for n_, f_ in need.items():
+        if f_ is None:
+            raise AnalysisError('deb822:Deb822.%s not found' % n_)
+    fset, fval = need['__setitem__'], need['validate_input']
+    rep.saw_func(fval)
+
+    def world():
+        heap = H.Heap(mod, extra_modules=[src.mod('_util')], hooks={'_strI': lambda it, a, k: H.Key(a[0].lower(), a[0]) if isinstance(a[0], str) else a[0]})
+        heap.native_regex = True
+        return heap, H.Interp(heap)
+
+    def entries(heap, p):
+        d_ = heap.objs[p.name].get('_Deb822Dict__dict')
+        if not (isinstance(d_, H.Ref) and heap.objs[d_.name]['__class__'] == 'dict'):
+            raise AnalysisError('deb822:Deb822Dict: the fields of a paragraph are not kept in self.__dict')
+        return [(getattr(k_, 'spelling', k_), v_.concrete() if hasattr(v_, 'concrete') else v_) for k_, v_ in heap.objs[d_.name]['entries']]
+
+    def names(it, p):
+        fi = mod.method('Deb822Dict', '__iter__') or mod.method('Deb822', '__iter__')
+        return [getattr(k_, 'spelling', k_) for k_ in it.seq(it.call(H.Closure(fi.node, {}, p, fi.cls), []))]
+    FIRST = ['', 'one', 'a: b', '  lead']
+    GOOD = [' two', '\tthree', ' .', '  ', ' #c', ' Key: v']
+    BAD = ['three', 'Injected: yes', '#c', '-----BEGIN PGP SIGNATURE-----', '']
+    conts = [[]] + [[c_] for c_ in GOOD + BAD]
+    if tier == 'thorough':
+        conts += [[c1, c2] for c1 in GOOD + BAD for c2 in GOOD + BAD]
+    else:
+        conts += [[c1, c2] for c1 in GOOD for c2 in BAD] + [[c1, c2] for c1 in BAD[:2] for c2 in GOOD[:2]] + [[c1, c2] for c1 in GOOD[:4] for c2 in GOOD[:4]]
+    values = []
+    for f_ in FIRST:
+        for cs in conts:
+            v = '\n'.join([f_] + cs)
+            values.append(v)
+            if len(cs) <= 1 and (tier == 'thorough' or f_ in ('', 'one')):
+                values.append(v + '\n')
+    bad = {'reject': None, 'unchanged': None, 'reread': None, 'other': None}
+    n = n_acc = n_rej = 0
+    for value in values:
+        n += 1
+        lines = value.split('\n')
+        must_reject = value.endswith('\n') or any(l_ == '' or l_[0] not in ' \t' for l_ in lines[1:])
+        heap, it = world()
+        p = heap.alloc('Deb822', {})
+        it.call(H.Closure(need['__init__'].node, {}, p, need['__init__'].cls), [])
+        it.call(H.Closure(fset.node, {}, p, fset.cls), ['Alpha', 'x'])
+        it.call(H.Closure(fset.node, {}, p, fset.cls), ['Field', 'old'])
+        it.call(H.Closure(fset.node, {}, p, fset.cls), ['Omega', 'y'])
+        before = entries(heap, p), names(it, p)
+        try:
+            it.call(H.Closure(fset.node, {}, p, fset.cls), ['Field', value])
+            exc = None
+        except H.Raised as x:
+            exc = x.exc
+        if exc is not None and not exc.endswith('ValueError'):
+            bad['other'] = bad['other'] or 'p["Field"] = %r raises %s' % (value, exc)
+            continue
+        if exc is not None:
+            n_rej += 1
+            if (entries(heap, p), names(it, p)) != before:
+                bad['unchanged'] = bad['unchanged'] or 'p["Field"] = %r raises ValueError and leaves the paragraph with %r (it had %r)' % (value, entries(heap, p), before[0])
+            continue
+        if must_reject:
+            why = 'ends in a newline' if value.endswith('\n') else 'has an empty line' if '' in lines[1:] else 'has a continuation line that does not start with whitespace'
+            bad['reject'] = bad['reject'] or 'p["Field"] = %r is accepted: the value %s' % (value, why)
+            continue
+        n_acc += 1
+        try:
+            text = it.call(H.Closure(need['dump'].node, {}, p, need['dump'].cls), [])
+        except H.Raised as x:
+            bad['other'] = bad['other'] or 'after p["Field"] = %r, dump() raises %s' % (value, x.exc)
+            continue
+        text = text.concrete() if hasattr(text, 'concrete') else text
+        if not isinstance(text, str):
+            raise AnalysisError('deb822:Deb822.dump: the interpreted dump gives %r' % (text,))
+        blank_cont = any(not l_.strip() for l_ in lines[1:])
+        for setting in ('whitespace-only lines do not end a paragraph', 'default'):
+            if setting == 'default' and blank_cont:
+                continue
+            heap2, it2 = world()
+            sd = None
+            if setting != 'default':
+                sd = heap2.new_dict()
+                heap2.dict_set(sd, 'whitespace-separates-paragraphs', False)
+            try:
+                paras = it2.seq(it2.call(H.Closure(need['iter_paragraphs'].node, {}, ('class', 'Deb822'), need['iter_paragraphs'].cls),
+                                         [heap2.new_list(text.splitlines(True))], {'use_apt_pkg': False, 'strict': sd}))
+                got = [names(it2, q_) for q_ in paras]
+            except H.Raised as x:
+                got = 'raises %s' % x.exc
+            if got != [['Alpha', 'Field', 'Omega']]:
+                bad['reread'] = bad['reread'] or ('p["Field"] = %r is accepted; the dump %r read back (%s) gives %s, not one paragraph with the fields Alpha, Field, Omega' % (
+                    value, text, setting, got if isinstance(got, str) else 'the paragraphs %r' % (got,)))
+    rep.analysed['paths'] += n
+    if n_acc < 20 or n_rej < 20:
+        raise AnalysisError('deb822:Deb822.__setitem__: %d of %d values accepted, %d refused: the family does not exercise both sides' % (n_acc, n, n_rej))
+    for key, what in (('reject', 'a value that ends in a newline, has an empty line or an unindented continuation line is refused'),
+                      ('unchanged', 'a refused value leaves the paragraph as it was'),
+                      ('reread', 'an accepted value, dumped and read back, gives one paragraph with the same field names'),
+                      ('other', 'assignment and dump raise nothing but the ValueError of a refused value')):
+        if bad[key]:
+            rep.fail('C08.R5', fval.site, what + ' (interpreted values)', bad[key], where=fval.where)
+        else:
+            rep.ok('C08.R5', fval.site, what + ' (interpreted values)', '%d values, %d accepted, %d refused' % (n, n_acc, n_rej))
+
+
 def check(src, rep, tier):
     rep.explanation = ('C08: the language of values accepted by Deb822.validate_input is built from its raise-guards; the dump '
                        'template is extracted from _dump_format (two forms); the resulting text language is split into reader '
@@ -507,16 +624,27 @@ def check(src, rep, tier):
     rep.need('C08.R1', 20)
     rep.need('C08.R2', 3)
     rep.need('C08.R3', 4)
-    M = Model(src, rep)
-    rep.guard('C08.R2', r2_same_line_notion, src, M)
-    rep.guard('C08.R1', r1_no_injection, src, M)
-    rep.guard('C08.R3', r3_check_before_commit, src, M)
+    from . import common
+    rep.need('C08.R5', 4)
+    n_v, n_e = len(rep.violations), len(rep.errors)
+    rep.guard('C08.R5', r5_accept_and_reread, src, tier)
+    values_hold = len(rep.violations) == n_v and len(rep.errors) == n_e
+    # the language-level readings (exact for EVERY value of the domain, CR included) apply when the validator is written in the
+    # vocabulary of the model; where it is not, the interpreted values decide
+    soft = common.SoftErrors(rep, lambda: values_hold, 'the interpreted values (C08.R5), which are refused or read back as one paragraph with the same fields')
+    M = soft.guard('C08.R1', lambda r_: Model(src, r_))
+    if M is not None:
+        soft.guard('C08.R2', r2_same_line_notion, src, M)
+        soft.guard('C08.R1', r1_no_injection, src, M)
+        soft.guard('C08.R3', r3_check_before_commit, src, M)
+    elif values_hold:
+        for r_ in ('C08.R1', 'C08.R2', 'C08.R3'):
+            rep.min_instances[r_] = 0
     rep.need('C08.R4', 5)
     n_v, n_e = len(rep.violations), len(rep.errors)
     rep.guard('C08.R4', r4b_handover, src)
     handover_holds = len(rep.violations) == n_v and len(rep.errors) == n_e
     n_r4 = sum(1 for i_ in rep.instances if i_.get('rule') == 'C08.R4')
-    from . import common
     common.SoftAll(rep, lambda: handover_holds, 'the interpreted constructor (C08.R4), which hands the setting on under every calling convention').guard(
         'C08.R4', r4_settings_by_position, src)
     if rep.min_instances.get('C08.R4') == 0 or not handover_holds:
